@@ -32,12 +32,12 @@ type shadow struct {
 	buf     bool
 	bufLen  int64
 	reader  bool
-	readAdv bool  // a read advanced curWrOff past writeStart and no Seek happened since
+	readAdv bool // a read advanced curWrOff past writeStart and no Seek happened since
 	// hangRisk: a shrinking Truncate rewrote (in place) the root node that the cached
 	// reader's walker still iterates; the next Read on it can spin forever in
 	// ipld.Walker.Iterate (child index beyond the new link count).
 	hangRisk bool
-	size    int64 // last observed Size()
+	size     int64 // last observed Size()
 
 	open      map[string]bool // finding key -> listed as open
 	sameOp    string
